@@ -222,9 +222,14 @@ def recheck(tag, checks=None, tiers=("quick",)):
         meta["earlier_evaluations"] = hist
         rc, head = sh(["git", "-C", VERIF, "rev-parse", "--short", "HEAD"])
         meta["verif_commit"] = head.strip() + "+"
-        meta["checks_run"], meta["caught_by"] = runs, caught
+        if checks:      # other checks than the property's own: add to the record
+            keep = [r for r in meta.get("checks_run", []) if r["check"] not in checks]
+            meta["checks_run"] = keep + runs
+            meta["caught_by"] = [c for c in meta.get("caught_by", []) if c.split(" ")[0] not in checks] + caught
+        else:
+            meta["checks_run"], meta["caught_by"] = runs, caught
         json.dump(meta, open(mp, "w"), indent=1)
-        print(tag, "caught_by=%s" % caught, flush=True)
+        print(tag, "caught_by=%s" % meta["caught_by"], flush=True)
     finally:
         sh(["git", "-C", "/repo", "worktree", "remove", "--force", wt])
         for d in ("/tmp/sb-rc" + tag, "/tmp/sw-rc" + tag, "/tmp/se-rc" + tag):
